@@ -3,6 +3,7 @@ package gen
 import (
 	"fmt"
 	"math/rand"
+	"sort"
 	"strings"
 
 	. "verif/harness/pqlref"
@@ -72,6 +73,9 @@ type PipeGen struct {
 	// DetSort: probability (percent) that a sort before/inside a limit is made
 	// total by appending the unique id column.
 	DetSort int
+	// named: schemas of the results named by `as` so far (readable by later
+	// right-hand pipelines)
+	named map[string]Schema
 }
 
 func (g *PipeGen) eg(s Schema, agg bool) *ExprGen {
@@ -193,6 +197,33 @@ func (g *PipeGen) Op(kind string, s Schema, joinDepth int) (*Op, Schema) {
 				}
 			}
 			t := Ty(g.Rng.Intn(3))
+			if g.Rng.Intn(4) == 0 {
+				// redefine an existing column from its own old value: x = f(x)
+				var cand []SCol
+				for _, c := range s {
+					if !c.Amb && !used[c.Name.Name] && c.Ty != TArr && c.Name.Name != "id" {
+						cand = append(cand, c)
+					}
+				}
+				if len(cand) > 0 {
+					c := cand[g.Rng.Intn(len(cand))]
+					cx := &E{K: "name", Parts: []Ident{c.Name}}
+					var x *E
+					switch c.Ty {
+					case TInt:
+						x = Bin("+", cx, Num("1"))
+					case TStr:
+						x = Call("strcat", cx, StrLit("x", false))
+					default:
+						x = Call("not", cx)
+					}
+					id := c.Name
+					op.Cols = append(op.Cols, Col{Name: &id, X: x})
+					ns = append(ns, SCol{c.Name, c.Ty, false})
+					used[c.Name.Name] = true
+					continue
+				}
+			}
 			id := g.freshName(append(s, ns...))
 			op.Cols = append(op.Cols, Col{Name: &id, X: g.expr(s, t)})
 			ns = append(ns, SCol{id, t, false})
@@ -269,6 +300,9 @@ func (g *PipeGen) Op(kind string, s Schema, joinDepth int) (*Op, Schema) {
 		if len(op.By) > 0 && g.Rng.Intn(5) == 0 {
 			na = 0
 		}
+		if g.Rng.Intn(12) == 0 {
+			na = 9 + g.Rng.Intn(8) // a wide summarize: more than a dozen output columns
+		}
 		ints := s.cols()[TInt]
 		bools := s.cols()[TBool]
 		for i := 0; i < na; i++ {
@@ -308,6 +342,18 @@ func (g *PipeGen) Op(kind string, s Schema, joinDepth int) (*Op, Schema) {
 	case "as":
 		g.asN++
 		op.Name = Ident{Name: fmt.Sprintf("Stage%d_%d", g.asN, g.Rng.Intn(1000))}
+		if g.named == nil {
+			g.named = map[string]Schema{}
+		}
+		clean := true
+		for _, c := range s {
+			if c.Amb {
+				clean = false
+			}
+		}
+		if clean {
+			g.named[op.Name.Name] = append(Schema{}, s...)
+		}
 		return op, s
 	case "render":
 		op.Name = Ident{Name: []string{"barchart", "piechart", "table"}[g.Rng.Intn(3)]}
@@ -368,7 +414,29 @@ func (g *PipeGen) join(s Schema, joinDepth int) (*Op, Schema) {
 	if joinDepth > 0 && g.Rng.Intn(3) == 0 {
 		rkinds = append(rkinds, "join")
 	}
-	rp, rs := g.Pipe(rt, rkinds, joinDepth-1)
+	var rp *Pipe
+	var rs Schema
+	if len(g.named) > 0 && g.Rng.Intn(3) == 0 {
+		// read a result named by an earlier `as` (a self-join when it is this pipeline's own)
+		var names []string
+		for n := range g.named {
+			names = append(names, n)
+		}
+		sort.Strings(names)
+		rt = names[g.Rng.Intn(len(names))]
+		rs = append(Schema{}, g.named[rt]...)
+		rp = &Pipe{Table: Ident{Name: rt}}
+		for _, k := range rkinds {
+			if k == "join" || k == "as" {
+				continue
+			}
+			var rop *Op
+			rop, rs = g.Op(k, rs, 0)
+			rp.Ops = append(rp.Ops, rop)
+		}
+	} else {
+		rp, rs = g.Pipe(rt, rkinds, joinDepth-1)
+	}
 	op.Right = rp
 	// condition forms over columns usable on both sides
 	var lInts, rInts []Ident
@@ -402,7 +470,12 @@ func (g *PipeGen) join(s Schema, joinDepth int) (*Op, Schema) {
 			case 0:
 				op.Conds = append(op.Conds, Bin("==", r, l))
 			case 1:
-				op.Conds = append(op.Conds, Bin([]string{"<", ">=", "!="}[g.Rng.Intn(3)], l, r))
+				cmp := []string{"<", "<=", ">", ">=", "!=", "=="}[g.Rng.Intn(6)]
+				if g.Rng.Intn(2) == 0 {
+					op.Conds = append(op.Conds, Bin(cmp, l, r))
+				} else {
+					op.Conds = append(op.Conds, Bin(cmp, r, l))
+				}
 			case 2:
 				op.Conds = append(op.Conds, Bin("==", l, Bin("+", r, Num("1"))))
 			case 3:
